@@ -1,7 +1,7 @@
-// props: C10 C11
+// props: C10 C11 C12
 // package: v4/cdcn
 // function: cdcn.(*scannerClass_).MatchToken with the string_ / rune_ / escape_ patterns, and the ParseSource path behind them
-// bound: every string of length <= 3 over a 14-character alphabet (letters, double and single quote, backslash, space, tab, newline, NUL, bell, U+00E9, U+1F600) = 2955 strings x 5 right contexts; every rune in 0..0x2FF plus 8 astral / special runes; exhaustive over this finite domain
+// bound: (a) every string of length <= 3 over a 14-character alphabet (letters, double and single quote, backslash, space, tab, newline, NUL, bell, U+00E9, U+1F600) = 2955 strings x 5 right contexts; every rune in 0..0x2FF plus 8 astral / special runes; (b) all 12 token patterns x 30 x 30 two-part probe texts: no pattern matches the empty string; exhaustive over this finite domain
 // why: token acceptance is decided by regular expressions (package regexp); the contracts treat regexp matching as an assumed library function, so which prefix a pattern matches cannot be stated in them
 package cdcn
 
@@ -75,6 +75,21 @@ func TestVerifBounded(t *tes.T) {
 		var parsed = verifBoundedParse("[" + text + "](List)")
 		if list, ok := parsed.(col.ListLike[any]); !ok || list.GetSize() != 1 || list.GetValue(1) != any(r) {
 			fail("rune literal %s parses to %v, want the one-element list of %q", text, parsed, r)
+		}
+	}
+	// no token pattern matches the empty string (the progress assumption behind the scanner loop's variant)
+	var kinds = []TokenType{BooleanToken, ComplexToken, DelimiterToken, EOLToken, FloatToken, HexadecimalToken,
+		IntegerToken, NilToken, RuneToken, SpaceToken, StringToken, TypeToken}
+	var probes = append([]string{"", "+", "-", "0", "0x", "(", ")", "e", ".", "1", "t", "f", "A", "\"", "'", "\\"}, alphabet...)
+	for _, kind := range kinds {
+		for _, left := range probes {
+			for _, right := range probes {
+				n++
+				var matches = Scanner().MatchToken(kind, left+right)
+				if !matches.IsEmpty() && len(matches.GetValue(1)) == 0 {
+					fail("token type %d matches the empty string at the start of %q", kind, left+right)
+				}
+			}
 		}
 	}
 	if fails == 0 {
